@@ -116,6 +116,7 @@ structure Codec where
   crcExtra : UInt8
   specCrcExtra : UInt8 := crcExtra               -- oracle only: CRC_EXTRA by the spec recipe (C03)
   decode : Bool → Bytes → Msg.DecRes
+  encode : Bool → List Msg.FVal → Msg.EncRes
 
 structure RCfg where
   H : Bytes → Bytes                              -- SHA-256 (parameter: theorems are generic in it)
@@ -171,14 +172,21 @@ def dialectGate (cfg : RCfg) (f : Frame) : RRes :=
           | .errSize => .perr .decodeSize
           | .panic => .panic
           | .ok vals =>
-            match f with
-            | .v1 g => .frame (.v1 { g with msg := .dec id vals })
-            | .v2 g =>
-              if Msg.hasEmptyBytes p then
-                let p' := Msg.removeEmptyBytes p
-                let g' : V2Frame := { g with msg := .raw id p' }
-                .frame (.v2 { g with msg := .dec id vals, crc := X25.sum (g'.crcInput p' ++ [c.crcExtra]) })
-              else .frame (.v2 { g with msg := .dec id vals })
+            -- the checksum is made consistent with the canonical re-encoding (what Writer.Write will send)
+            match c.encode f.isV2 vals with
+            | .panic => .panic
+            | .ok p' =>
+              match f with
+              | .v1 g =>
+                if p' != p then
+                  let g' : V1Frame := { g with msg := .raw id p' }
+                  .frame (.v1 { g with msg := .dec id vals, crc := X25.sum (g'.crcInput p' ++ [c.crcExtra]) })
+                else .frame (.v1 { g with msg := .dec id vals })
+              | .v2 g =>
+                if p' != p then
+                  let g' : V2Frame := { g with msg := .raw id p' }
+                  .frame (.v2 { g with msg := .dec id vals, crc := X25.sum (g'.crcInput p' ++ [c.crcExtra]) })
+                else .frame (.v2 { g with msg := .dec id vals })
 
 /-- Reader.Read -/
 def readOne (cfg : RCfg) (st : RState) (s : Stream) : RRes × Stream × RState :=
